@@ -23,7 +23,7 @@ func init() {
 		Fn:          c15,
 		Level:       "exploration",
 		Builds:      []string{"default", "purego"},
-		Rule:        "the same driver source is compiled with and without -tags purego; for every catalogue column built on a two-variant codec (32 generated + Bool + UUID, plus Point/Interval/wrappers that sit on them) it decodes generated raw inputs (exhaustive: every value of 8- and 16-bit element types, every input byte 0..255 for Bool, and one out-of-domain byte at every position of Bool columns of 7..65 rows; boundary+random limbs for wider ones; row counts 0,1,2,3,7,8,9,1000; inputs short by 1..size bytes; columns of 3 x 128 KiB cut at 0, 1, 4 KiB, 64 KiB, 128 KiB +-1, 256 KiB, 384 KiB and just before the end; errors are compared by class nil / io.EOF / io.ErrUnexpectedEOF / other) into {fresh, used-then-reset} columns and re-encodes through EncodeColumn into {empty, junk-prefixed 1..17 B} buffers and WriteColumn+Flush (prefix chained, writer buffer pre-filled before NewWriter, bytes appended directly between two columns); each step appends a transcript line (case id -> hash of bytes / values / error class); the parent aligns both transcripts by case id. Non-trivial = >=1 row; distinct = transcript case ids with rows>0",
+		Rule:        "the same driver source is compiled with and without -tags purego; for every catalogue column built on a two-variant codec (32 generated + Bool + UUID, plus Point/Interval/wrappers that sit on them) it decodes generated raw inputs (exhaustive: every value of 8- and 16-bit element types, every input byte 0..255 for Bool, and one out-of-domain byte at every position of Bool columns of 7..65 rows; boundary+random limbs for wider ones; row counts 0,1,2,3,7,8,9,255,256,257,1000; inputs short by 1..size bytes; columns of 3 x 128 KiB cut at 0, 1, 4 KiB, 64 KiB, 128 KiB +-1, 256 KiB, 384 KiB and just before the end; errors are compared by class nil / io.EOF / io.ErrUnexpectedEOF / other) into {fresh, used-then-reset} columns and re-encodes through EncodeColumn into {empty, junk-prefixed 1..17 B} buffers and WriteColumn+Flush (prefix chained, writer buffer pre-filled before NewWriter, bytes appended directly between two columns); each step appends a transcript line (case id -> hash of bytes / values / error class); the parent aligns both transcripts by case id. Non-trivial = >=1 row; distinct = transcript case ids with rows>0",
 		Assumptions: []string{"error classes compared are {nil, short read, bad value}; after a failed decode only the error class is compared", "ColRawOf exists only in the default build and is excluded"},
 		MinDistinct: 500,
 		Post:        c15Post,
@@ -174,6 +174,23 @@ func c15(r *core.Run) {
 			short := 1 + rng.Intn(w)
 			c15Decode(t, e, id+fmt.Sprintf("|short-by-%d", short), raw[:len(raw)-short], rows, false, false)
 		}
+		// --- a few hundred rows (size thresholds in the codecs), all paths ---
+		ci++
+		if r.Take(ci) {
+			rng := r.Rand(ci, "rows300")
+			for _, rows := range []int{255, 256, 257, 1000} {
+				raw := make([]byte, rows*w)
+				rng.Read(raw)
+				if ty.Base == "Bool" {
+					for i := range raw {
+						raw[i] &= 1
+					}
+				}
+				if !strings.HasPrefix(e.Kind, "ColEnum(") && !strings.Contains(e.Type, "DateTime64(") && ty.Base != "Date32" {
+					c15Codec(t, r, e, ty, fmt.Sprintf("%03d|%s|%s|rows=%d", ei, e.Type, e.Kind, rows), raw, rows, 5)
+				}
+			}
+		}
 		// --- columns larger than the reader's buffer, cut at and around multiples of 64 KiB / 128 KiB ---
 		ci++
 		if r.Take(ci) {
@@ -226,6 +243,14 @@ func c15Codec(t *c15T, r *core.Run, e val.Entry, ty *ref.Type, id string, raw []
 			c.EncodeColumn(&b2)
 			ok := len(b2.Buf) >= prefixLen && bytes.Equal(b2.Buf[:prefixLen], prefix)
 			t.line(sub+fmt.Sprintf("|EncodeColumn/prefix%d", prefixLen), fmt.Sprintf("%016x len=%d prefix-preserved=%v", core.Hash(string(b2.Buf)), len(b2.Buf), ok), rows)
+			// a used buffer: length reset, old bytes still in the spare capacity
+			dirty := make([]byte, len(b.Buf)+40)
+			for i := range dirty {
+				dirty[i] = 0x5A ^ byte(i)
+			}
+			b3 := proto.Buffer{Buf: dirty[:0]}
+			c.EncodeColumn(&b3)
+			t.line(sub+"|EncodeColumn/used-buffer", fmt.Sprintf("%016x len=%d same-as-fresh=%v", core.Hash(string(b3.Buf)), len(b3.Buf), bytes.Equal(b3.Buf, b.Buf)), rows)
 			var sink bytes.Buffer
 			w := proto.NewWriter(&sink, new(proto.Buffer))
 			w.ChainBuffer(func(buf *proto.Buffer) { buf.PutRaw(prefix) })
@@ -242,6 +267,15 @@ func c15Codec(t *c15T, r *core.Run, e val.Entry, ty *ref.Type, id string, raw []
 			c.WriteColumn(w)
 			_, err = w.Flush()
 			t.line(sub+"|WriteColumn/prefilled", fmt.Sprintf("%016x len=%d err=%s", core.Hash(sink.String()), sink.Len(), errClass(err)), rows)
+			// encoding and writing are reads: afterwards the column holds the same rows and encodes to
+			// the same bytes again
+			var b4 proto.Buffer
+			c.EncodeColumn(&b4)
+			sink.Reset()
+			w = proto.NewWriter(&sink, new(proto.Buffer))
+			c.WriteColumn(w)
+			_, err = w.Flush()
+			t.line(sub+"|after-writes", fmt.Sprintf("EncodeColumn-unchanged=%v WriteColumn-equals-EncodeColumn=%v err=%s", bytes.Equal(b4.Buf, b.Buf), bytes.Equal(sink.Bytes(), b.Buf), errClass(err)), rows)
 		}); p != "" {
 			t.line(sub+"|encode", "PANIC "+firstLineOf(p), rows)
 		}
